@@ -230,7 +230,7 @@ fn rejection_cost(spec: &Spec) -> f64 {
 
 fn check_setting(ctx: &Ctx, setting: &Setting, seed: u64, n_target: usize) {
     let spec = &setting.spec;
-    let n = n_target.min((2.5e9 / rejection_cost(spec)) as usize).max(20_000);
+    let n = n_target.min((4e8 / rejection_cost(spec)) as usize).max(if rejection_cost(spec) > 2e4 { 3_000 } else { 20_000 });
     let eps = dkw_eps(n);
     let mut b = Batch::default();
     let mut r = Sm::derive(seed, &[14, spec.width() as u64]);
@@ -351,6 +351,10 @@ fn settings(r: &mut Sm, k: usize) -> Vec<Setting> {
         v.push(Setting { spec: Spec::plain(Wrap::So2, CK::So2 { bounds: s2 }, None), via: "direct" });
         let s3 = if i % 3 == 0 { None } else { Some((r.quat(), *r.pick(&[0.6, 1.0, 1.5707963267948966, 2.2, 3.0]))) };
         v.push(Setting { spec: Spec::plain(Wrap::So3, CK::So3 { bounds: s3 }, None), via: "direct" });
+        // tight cones: few samples are affordable (rejection cost ~ radius^-3), which is still
+        // enough to see gross defects such as mass piling up on the boundary
+        let tight = [0.25, 0.4, 0.3, 0.5, 0.2, 0.35][i % 6];
+        v.push(Setting { spec: Spec::plain(Wrap::So3, CK::So3 { bounds: Some((r.quat(), tight)) }, None), via: "direct" });
         v.push(Setting {
             spec: Spec {
                 wrap: Wrap::Se2,
@@ -401,7 +405,7 @@ pub fn run(tier: Tier, seed: u64) -> i32 {
         &[
             "a bias smaller than the DKW epsilon printed in the samples is invisible to this check",
             "false-alarm probability per run <= (number of tests) * 1e-9, for every seed",
-            "SO3 cones below 0.6 rad are not sampled (rejection cost); sample size is reduced for expensive cones",
+            "sample size is reduced for expensive (tight) SO3 cones: down to 3 000 samples (epsilon 0.06) at 0.2 rad",
             "ChaCha8Rng is trusted as a source of independent uniform bits",
         ],
         json!({"alpha_per_test": ALPHA, "tests_run": tests, "nominal_samples_per_setting": n, "dkw_epsilon_at_nominal_n": dkw_eps(n)}),
